@@ -118,6 +118,98 @@ pub fn gen_program(r: &mut Rng, cfg: &GenCfg) -> MProgram {
     p
 }
 
+/// "Propositional" programs: every impl is on the single nullary struct `S`, so the program is a random
+/// propositional Horn program over 3-5 atoms `S: Ti` with dense (mutual) recursion, several clauses per atom and
+/// facts. All traits inductive, or all #[coinductive] (no mixed cycles). The search graphs of both solvers then
+/// contain cycles whose head is only decided in a later iteration, members that finish before the head, and goals
+/// outside the cycle that read provisional results.
+pub fn gen_propositional(r: &mut Rng, coinductive: bool) -> MProgram {
+    let mut p = MProgram::default();
+    p.structs.push(MStruct { name: "S".into(), ..Default::default() });
+    p.structs.push(MStruct { name: "A".into(), ..Default::default() });
+    p.structs.push(MStruct { name: "Vec".into(), nparams: 1, ..Default::default() });
+    let nt = 3 + r.below(3);
+    for i in 0..nt {
+        p.traits.push(MTrait { name: format!("T{}", i), coinductive, ..Default::default() });
+    }
+    let s = MTy::nullary("S");
+    let cl = |h: usize, body: &[usize]| MImpl { head: MPred::new(&format!("T{}", h), vec![MTy::nullary("S")]), wheres: body.iter().map(|b| MPred::new(&format!("T{}", b), vec![MTy::nullary("S")])).collect(), positive: true, ..Default::default() };
+    if r.chance(55) {
+        // shapes in which a goal outside a cycle reads a cycle member's provisional result: a cycle H <-> B, a reader
+        // C :- B that H itself also depends on, and a base case for H that may only count in a later iteration
+        // H = T0, B = T1, C = T2 (the goal generator poses every ordered pair of them)
+        let (h, b, c) = (0, 1, 2);
+        let d = if nt > 3 { Some(3) } else { None };
+        let mut cls = vec![cl(h, &[b]), cl(b, &[h]), cl(c, &[b])];
+        if r.chance(80) {
+            cls.push(cl(h, &[c]));
+        }
+        match (r.below(4), d) {
+            (0, _) => {}
+            (1, Some(d)) => {
+                cls.push(cl(h, &[d]));
+                if r.chance(70) {
+                    cls.push(cl(d, &[]));
+                }
+            }
+            _ => cls.push(cl(h, &[])),
+        }
+        if let (Some(d), true) = (d, r.chance(30)) {
+            cls.push(cl(b, &[h, d]));
+        }
+        for _ in 0..r.below(3) {
+            let head = r.below(nt);
+            let body: Vec<usize> = (0..r.below(3)).map(|_| r.below(nt)).collect();
+            cls.push(cl(head, &body));
+        }
+        r.shuffle(&mut cls);
+        p.impls = cls;
+        let _ = s;
+        return p;
+    }
+    let ncl = nt + r.below(nt + 2);
+    for _ in 0..ncl {
+        let head = r.below(nt);
+        let nb = r.below(4);
+        let body: Vec<usize> = (0..nb).map(|_| r.below(nt)).collect();
+        p.impls.push(cl(head, &body));
+    }
+    let _ = s;
+    p
+}
+
+/// Goals for a propositional program: single atoms and conjunctions (in both orders), optionally negated atoms.
+pub fn gen_propositional_goals(r: &mut Rng, p: &MProgram, n: usize, allow_not: bool) -> Vec<MGoal> {
+    let s = MTy::nullary("S");
+    let atom = |r: &mut Rng| MGoal::Pred(MPred::new(&r.pick(&p.traits).name, vec![s.clone()]));
+    let t = |i: usize| MGoal::Pred(MPred::new(&format!("T{}", i), vec![s.clone()]));
+    // every ordered pair of the first three atoms first (conjunct order decides which goal runs inside whose iteration)
+    let mut fixed: Vec<MGoal> = vec![];
+    for (a, b) in [(2, 0), (0, 2), (1, 0), (0, 1), (2, 1), (1, 2)] {
+        fixed.push(MGoal::And(vec![t(a), t(b)]));
+    }
+    fixed.push(MGoal::And(vec![t(1), t(2), t(0)]));
+    r.shuffle(&mut fixed);
+    let nfixed = (n * 2 / 3).min(fixed.len());
+    let mut out: Vec<MGoal> = fixed.into_iter().take(nfixed).collect();
+    let rest: Vec<MGoal> = (0..n - nfixed)
+        .map(|i| match i % 4 {
+            0 => atom(r),
+            1 => MGoal::And(vec![atom(r), atom(r)]),
+            2 => MGoal::And(vec![atom(r), atom(r), atom(r)]),
+            _ => {
+                if allow_not && r.chance(50) {
+                    MGoal::And(vec![atom(r), MGoal::Not(Box::new(atom(r)))])
+                } else {
+                    atom(r)
+                }
+            }
+        })
+        .collect();
+    out.extend(rest);
+    out
+}
+
 #[derive(Clone, Debug, Default)]
 pub struct GoalCfg {
     pub closed_only: bool,
@@ -288,9 +380,54 @@ pub fn gen_auto_program(r: &mut Rng) -> MProgram {
         };
         p.structs.push(MStruct { name: names[i].clone(), nparams: arity[i], fields, variants, ..Default::default() });
     }
+    // chalk#248 shapes, generated systematically for 45% of the programs: a cycle K0 -> K1 (-> K2) -> K0 through
+    // fields, optionally with one member that fails (a field of type `Bad`, which has a negative impl), structs
+    // outside the cycle that read cycle members (O*), and cycle members that read those outside structs
+    // (K0 -> O0 -> K1). Field orders are shuffled: the solvers visit fields in different orders.
+    let with_cycle = r.chance(45);
+    let mut cyc: Option<(usize, Option<usize>, usize)> = None;
+    if with_cycle {
+        let n = 2 + r.below(2);
+        let failing = if r.chance(65) { Some(r.below(n)) } else { None };
+        let nout = 1 + r.below(2);
+        cyc = Some((n, failing, nout));
+        for i in 0..n {
+            let mut fields = vec![MTy::nullary(&format!("K{}", (i + 1) % n))];
+            if failing == Some(i) {
+                fields.push(MTy::nullary("Bad"));
+            }
+            for o in 0..nout {
+                if r.chance(45) {
+                    fields.push(MTy::nullary(&format!("O{}", o)));
+                }
+            }
+            if r.chance(25) {
+                fields.push(MTy::nullary(*r.pick(SCALARS)));
+            }
+            r.shuffle(&mut fields);
+            p.structs.push(MStruct { name: format!("K{}", i), fields, ..Default::default() });
+        }
+        for o in 0..nout {
+            let mut fields = vec![MTy::nullary(&format!("K{}", r.below(n)))];
+            if r.chance(30) {
+                fields.push(MTy::nullary(&format!("K{}", r.below(n))));
+            }
+            if o > 0 && r.chance(40) {
+                fields.push(MTy::nullary("O0"));
+            }
+            r.shuffle(&mut fields);
+            p.structs.push(MStruct { name: format!("O{}", o), fields, ..Default::default() });
+        }
+        p.structs.push(MStruct { name: "Bad".into(), ..Default::default() });
+    }
     let nauto = 1 + r.below(2);
     for i in 0..nauto {
         p.traits.push(MTrait { name: format!("Au{}", i), auto: true, ..Default::default() });
+    }
+    if with_cycle {
+        for i in 0..nauto {
+            p.impls.push(MImpl { head: MPred::new(&format!("Au{}", i), vec![MTy::nullary("Bad")]), positive: false, ..Default::default() });
+        }
     }
     if r.chance(50) {
         p.traits.push(MTrait { name: "Co0".into(), coinductive: true, ..Default::default() });
@@ -333,6 +470,31 @@ pub fn gen_auto_program(r: &mut Rng) -> MProgram {
                     wheres.push(MPred::new(&tr.name, vec![MTy::Var(0)]));
                 }
                 p.impls.push(MImpl { nvars: arity[i], head: MPred::new(&tr.name, vec![self_ty]), wheres, positive: true, ..Default::default() });
+            }
+        }
+    }
+    // the same cycle shapes through a #[coinductive] trait's impls
+    if let Some((n, failing, nout)) = cyc {
+        if p.traits.iter().any(|t| t.name == "Co0") {
+            for i in 0..n {
+                let mut wheres = vec![MPred::new("Co0", vec![MTy::nullary(&format!("K{}", (i + 1) % n))])];
+                if failing == Some(i) {
+                    wheres.push(MPred::new("Co0", vec![MTy::nullary("Bad")]));
+                }
+                for o in 0..nout {
+                    if r.chance(45) {
+                        wheres.push(MPred::new("Co0", vec![MTy::nullary(&format!("O{}", o))]));
+                    }
+                }
+                r.shuffle(&mut wheres);
+                p.impls.push(MImpl { head: MPred::new("Co0", vec![MTy::nullary(&format!("K{}", i))]), wheres, positive: true, ..Default::default() });
+            }
+            for o in 0..nout {
+                let mut wheres = vec![MPred::new("Co0", vec![MTy::nullary(&format!("K{}", r.below(n)))])];
+                if r.chance(30) {
+                    wheres.push(MPred::new("Co0", vec![MTy::nullary(&format!("K{}", r.below(n)))]));
+                }
+                p.impls.push(MImpl { head: MPred::new("Co0", vec![MTy::nullary(&format!("O{}", o))]), wheres, positive: true, ..Default::default() });
             }
         }
     }
